@@ -416,7 +416,7 @@ func c20Run(r *sim.Run) {
 		r.Event("free-running", procs)
 		r.Probe("mode-B-free-running")
 	} else {
-		var s sim.Sched
+		s := sim.Sched{Isolate: sim.RaceEnabled}
 		order := s.RunTasks(steps, func(runnable []int) int { return t.Draw(len(runnable)) })
 		r.Logf("schedule: %v", order)
 		for _, o := range order {
@@ -507,13 +507,14 @@ func init() {
 			"Mode A (85%): built with -race, tasks are real goroutines serialised by a race-invisible baton in an order drawn from the tape at every step boundary; mode B (15%): the same scripts free-running behind a barrier at GOMAXPROCS 1/4/16. Oracles: no race report with an mp4ff frame, each task's per-step results equal the same script run alone, SHA of every shared input unchanged, registry/table fingerprint unchanged. " +
 			"non-trivial = at least two task switches in the drawn schedule; distinct = hash of the schedule (task id per step) and scripts.",
 		Assumptions: []string{"the box-decoder registry is not modified (excluded by the statement)", "in-place conversions (ConvertByteStreamToNaluSample etc.) are given private copies: they are documented as in place",
-			"slice-path decoding aliases the caller's buffer; scripts that then encrypt/decrypt in place are generated in a minority of runs and their effect on the shared input is the recorded finding", "race detector (ThreadSanitizer) with suppress_equal_stacks=0"},
+			"slice-path decoding aliases the caller's buffer; scripts that then encrypt/decrypt in place are generated in a minority of runs and their effect on the shared input is the recorded finding", "race detector (ThreadSanitizer) with suppress_equal_stacks=0; it is a sound but not complete sensor: runtime-internal synchronisation (sync.Pool in fmt, atomics) can order two tasks and hide a race, so all pools are emptied (two GCs) before every step and replay/minimisation re-execute a tape up to 6 times"},
 		Real: realLib, Stub: []string{"caller scheduling (baton scheduler, tape-drawn)", "virtual time: none (library reads no clock)"}, RealNoFault: append([]string{"Go race detector runtime"}, realNoFault...),
-		Runs:        map[string]int{"quick": 1500, "thorough": 250000},
+		Runs:        map[string]int{"quick": 800, "thorough": 120000},
 		HangBudget:  120e9,
 		Setup:       c20Setup,
 		Run:         c20Run,
 		Race:        true,
+		Attempts:    6,
 		FatalIsViol: true,
 		WantProbes:  []string{"mode-A-serialised", "mode-B-free-running"},
 	})
